@@ -160,6 +160,7 @@ class Check:
     one property and writes the evidence file at the end."""
 
     def __init__(self, pid, level, title=''):
+        self.unexercised_whats = set()
         self.pid, self.level, self.title = pid, level, title
         self.t0 = time.time()
         self.findings = Findings(pid)
@@ -175,6 +176,11 @@ class Check:
     def violation(self, sig: dict, replay: dict):
         """Record one violating case. `sig` identifies what fails (used for
         known-finding matching); `replay` is everything needed to re-run it."""
+        if sig.get('what') in self.unexercised_whats:
+            # the scenario could not be run to the point where the property is observable (a command failed that
+            # the property says nothing about): that is not a violation of THIS property, and not a pass either
+            self.harness_error(f"could not exercise the property ({sig.get('what')}): " + (repr(sig) + ' ' + repr(replay))[:400])
+            return False
         if 'no controlled stand-in' in repr(sig) + repr(replay):
             # the code under test uses a primitive the scheduler cannot control: nothing can be concluded
             self.harness_error('unsupported concurrency primitive: ' + (repr(sig) + repr(replay))[:300])
